@@ -335,6 +335,17 @@ TEMPLATES = [
                 (5, 2, ["a", "z"], 0), (6, 3, ["a+ e1+ b+", "a+ z+", "z-", "a+ e1+ z+"], 0),
                 (7, 3, ["a e1 g o", "a z", "z", "o z g"], 0)],
          orders=[[1, 2, 3, 4, 5, 6, 7], [7, 6, 5, 4, 3, 2, 1], [3, 4, 5, 6, 7, 1, 2], [7, 6, 1, 3, 2, 4, 5]]),
+    # a record that mentions the same line twice or more, in EVERY arrival order of the document (the mentions are
+    # forward references whenever the record arrives first): items of O / U groups (segments and an edge) ...
+    dict(ver="gfa2", dia="standard", maxdev=1, orders="all",
+         lines=["S\ta\t10\t*", "S\tb\t10\t*", "E\te1\ta+\tb+\t5\t10$\t0\t5\t*", "O\to1\ta+ b+ a+", "U\tu1\te1 a e1"],
+         slots=[(4, 3, ["a+ b+ a+", "a+ a+", "a- b+ a+ b- a+", "a+ b+", "a+ z+ a+", "b+ b+ b+"], 0),
+                (5, 3, ["e1 a e1", "e1 e1", "a e1 a b a", "e1 a", "e1 z e1", "o1 a o1"], 0)]),
+    # ... and the segments / the links of a GFA1 path that goes through one link twice
+    dict(ver="gfa1", dia="standard", maxdev=1, orders="all",
+         lines=["S\ta\t*", "S\tb\t*", "L\ta\t+\tb\t+\t1M", "L\tb\t+\ta\t+\t1M", "P\tp\ta+,b+,a+,b+\t1M,1M,1M"],
+         slots=[(5, 3, ["a+,b+,a+,b+", "a+,b+,a+", "b+,a+,b+,a+", "a+,b+", "a+,z+,a+,b+"], 0),
+                (5, 4, ["1M,1M,1M", "*", "1M,1M", "1M,1M,1M,1M,1M"], 0)]),
     # rGFA restrictions
     dict(ver="gfa1", dia="rgfa", maxdev=2,
          lines=["S\ts1\tACG\tSN:Z:chr1\tSO:i:0\tSR:i:0", "S\ts2\t*\tSN:Z:chr1\tSO:i:3\tSR:i:0",
@@ -406,7 +417,10 @@ TEXTS = ["", "\n", " ", "\t", "\n\n", "S\tA\t*\n", "S\tA\t*\n\nS\tB\t*", "S\tA\t
          "S\t" + BADBYTE + "\t*", "S\tA\tAC" + BADBYTE, "S\tA\t*\n" + BADBYTE + "\n", "H\tVN:Z:1.0" + BADBYTE,
          # lone CR (a line break for a file opened with universal newlines, a character for the string entry points), NUL
          "\r", "S\tA\t*\r", "S\tA\t*\rS\tB\t*", "S\tA\t*\rS\tA\t*", "S\tA\t*\r\r\nS\tB\t*", "\rS\tA\t*", "S\tA\r\t*",
-         "S\tA\t*\x00\nS\tB\t*", "\x00\n\x00", "S\tA\t*\n\x00"]
+         "S\tA\t*\x00\nS\tB\t*", "\x00\n\x00", "S\tA\t*\n\x00",
+         # a line break where the record type should be, offered as ONE line (add_line): gfapy's internal record type of
+         # unknown lines
+         "\n\ta", "\n\tVN:Z:1.0", "\n\ta\tb\txx:i:1"]
 
 # strings passed to the string-taking API (C07)
 API_IDS = ["A", "a", "l1", "e1", "p", "o", "u", "g", "zz", "*", "", " ", "A+", "A,B", "a b", "\t", "\n", NONASCII,
@@ -555,7 +569,8 @@ def build_catalog(tier, layers, shorter=0, only=None):
         for li, fi, alts, cx in t["slots"]:
             if tl[li - 1][fi - 1] != alts[0]:
                 raise MachineryError("template slot %r: primary %r is not the text of the line" % ((li, fi), alts[0]))
-        templates.append(dict(ver=t["ver"], dia=t["dia"], maxdev=t["maxdev"], orders=t["orders"],
+        orders = t["orders"] if t["orders"] != "all" else [list(o) for o in itertools.permutations(range(1, len(tl) + 1))]
+        templates.append(dict(ver=t["ver"], dia=t["dia"], maxdev=t["maxdev"], orders=orders,
                               lines=[[_chars(f) for f in ln] for ln in tl],
                               slots=[dict(line=li, field=fi, alts=[_chars(a) for a in alts], ctx=cx)
                                      for li, fi, alts, cx in t["slots"]]))
@@ -738,8 +753,23 @@ class Runner:
             vf, _ = self.call(ln.validate_field, fname)
         return [cons, val, vf, self.written(ln)]
 
-    def doc_row(self, text, ver, dia, k):
-        cons, g = self.call(self.gfapy.Gfa, text, vlevel=k, version=ver, dialect=dia)
+    def doc_row(self, text, ver, dia, k, entry="Gfa"):
+        """entry: the document as one string, line by line into an empty Gfa, or as a file"""
+        G = self.gfapy
+        if entry == "Gfa":
+            cons, g = self.call(G.Gfa, text, vlevel=k, version=ver, dialect=dia)
+        elif entry == "add_line":
+            cons, g = self.call(G.Gfa, vlevel=k, version=ver, dialect=dia)
+            for ln in text.split("\n"):
+                if cons != "ok":
+                    break
+                cons, _ = self.call(g.add_line, ln)
+            if cons == "ok":
+                cons, _ = self.call(g.process_line_queue)
+        else:
+            with open(self.path, "w", encoding="utf-8", newline="", errors="surrogateescape") as f:
+                f.write(text)
+            cons, g = self.call(G.Gfa.from_file, self.path, vlevel=k, version=ver, dialect=dia)
         if cons != "ok":
             return [cons, "na", "na", "na"]
 
@@ -944,7 +974,9 @@ class Runner:
         elif kind == "d":
             text = case_text(c)
             for k in levels:
-                rows.append(self.doc_row(text, c["ver"], c["dia"], k)); lv.append(k); cfg.append("Gfa/%s/%s" % (c["ver"], c["dia"]))
+                for entry in ("Gfa", "add_line", "from_file"):
+                    rows.append(self.doc_row(text, c["ver"], c["dia"], k, entry)); lv.append(k)
+                    cfg.append("%s/%s/%s" % (entry if entry != "add_line" else "add_line each", c["ver"], c["dia"]))
         elif kind == "t":
             rows, lv, cfg = self.text_rows(c["s"], levels)
         elif kind == "a":
@@ -1170,7 +1202,9 @@ def _coverage(out, tier, cov, layers, shorter):
         documents=len(DOCS), document_variants=len(VARIANTS),
         document_templates=[dict(lines=t["lines"], slots=[dict(line=a, field=b, alternatives=c, context=bool(d))
                                                           for a, b, c, d in t["slots"]],
-                                 orders=t["orders"], max_deviating=t["maxdev"], dialect=t["dia"]) for t in TEMPLATES],
+                                 orders=t["orders"] if t["orders"] != "all" else "every permutation of the lines",
+                                 max_deviating=t["maxdev"], dialect=t["dia"]) for t in TEMPLATES],
+        document_entry_points=["Gfa(text)", "add_line per line + process_line_queue", "from_file"],
         hub_documents=len(hub_texts()),
         header_tag_lines=dict(names=HDR["names"], datatypes=HDR["types"], values=HDR["values"], before=HDR["pre"],
                               after=HDR["suf"]) if "hdr" in layers else None,
